@@ -87,7 +87,7 @@ def explore(desc, tier, scratch=None, max_violations=3):
                     sites_seen.add(util.digest(identity(e))[:10])
             plan, nl1, nl2 = driver.plan_faults(events, r, l1, win, inv, tier, entry,
                                                    agg=world.w['plots'] != 'stub', blocked=blocked, owin=owin,
-                                                   still_open=open_at_r | open_other, wins=twins)
+                                                   still_open=open_at_r | open_other | inject.mechanism_calls(m), wins=twins)
             st['l1_sites'] += nl1
             st['l2_sites'] += nl2
             tr = {'j': j, 'entry': entry, 'n_events': len(events), 'r': r, 'win': win,
@@ -226,7 +226,7 @@ def explore(desc, tier, scratch=None, max_violations=3):
                 spec = None
                 res = world.execute(j, fault=None, keep_events=False)
             else:
-                when3 = sel[2] if sel[0] not in (open_at_r | open_other) else 'entry'
+                when3 = sel[2] if sel[0] not in (open_at_r | open_other | inject.mechanism_calls(m)) else 'entry'
                 spec = _fault_spec(events, sel[0], sel[1], when3)
                 res = world.execute(j, fault=inject.Fault(sel[0], sel[1], tuple(spec['identity']), when=when3),
                                     keep_events=False)
